@@ -5,6 +5,7 @@
 
 use std::{
     hash::{Hash, Hasher},
+    marker::PhantomData,
     ops::{
         Bound, Range, RangeBounds, RangeFrom, RangeFull, RangeInclusive, RangeTo, RangeToInclusive,
     },
@@ -282,10 +283,14 @@ pub trait SurfaceMut: Surface {
 
     /// Iterator over mutable references to the items of the view in the row-major order
     fn iter_mut(&mut self) -> SurfaceMutIter<'_, Self::Item> {
+        let shape = self.shape();
+        let data = self.data_mut();
         SurfaceMutIter {
             index: 0,
-            shape: self.shape(),
-            data: self.data_mut(),
+            shape,
+            len: data.len(),
+            data: data.as_mut_ptr(),
+            _marker: PhantomData,
         }
     }
 
@@ -438,8 +443,17 @@ impl<'a, T> Iterator for SurfacePosIter<'a, T> {
 pub struct SurfaceMutIter<'a, T> {
     index: usize,
     shape: Shape,
-    data: &'a mut [T],
+    // Raw pointer to (and length of) the mutably borrowed slice. The slice must not be
+    // re-borrowed as a whole while previously yielded items are alive, as that would
+    // invalidate them, hence it is kept as a pointer for the lifetime of the borrow.
+    data: *mut T,
+    len: usize,
+    _marker: PhantomData<&'a mut [T]>,
 }
+
+// SAFETY: iterator is semantically `&'a mut [T]`
+unsafe impl<T: Send> Send for SurfaceMutIter<'_, T> {}
+unsafe impl<T: Sync> Sync for SurfaceMutIter<'_, T> {}
 
 impl<'a, T> SurfaceMutIter<'a, T> {
     /// Position of the element that will be yielded next
@@ -476,13 +490,12 @@ impl<'a, T: 'a> Iterator for SurfaceMutIter<'a, T> {
         let pos = self.shape.nth(self.index - 1)?;
         let offset = self.shape.offset(pos);
 
-        if offset >= self.data.len() {
+        if offset >= self.len {
             None
         } else {
             // this is safe, iterator is always progressing and never
             // returns a mutable reference to the same location.
-            let ptr = self.data.as_mut_ptr();
-            let item = unsafe { &mut *ptr.add(offset) };
+            let item = unsafe { &mut *self.data.add(offset) };
             Some(item)
         }
     }
